@@ -24,11 +24,29 @@ func extClass(fn *types.Func) string {
 	case p == "time":
 		return "time"
 	case p == "sync":
-		if rn := astx.RecvNamed(fn); rn != nil && (rn.Obj().Name() == "Cond" || rn.Obj().Name() == "WaitGroup" || rn.Obj().Name() == "Once") {
+		// (a Pool hands out whichever object another goroutine, or the garbage collector, left in it)
+		if rn := astx.RecvNamed(fn); rn != nil && (rn.Obj().Name() == "Cond" || rn.Obj().Name() == "WaitGroup" || rn.Obj().Name() == "Once" || rn.Obj().Name() == "Pool" || rn.Obj().Name() == "Map") {
 			return "nondet"
 		}
 		return "lock"
-	case p == "sync/atomic", p == "math/rand", p == "math/rand/v2", p == "crypto/rand", p == "os", p == "os/exec", p == "os/signal", p == "os/user", p == "runtime", p == "net", p == "net/http", p == "syscall", p == "io/ioutil", p == "context":
+	case p == "net":
+		// the address parsers and the value types of package net compute from their arguments alone; everything else
+		// (resolvers, dialers, listeners, interfaces) asks the host
+		if rn := astx.RecvNamed(fn); rn != nil {
+			switch rn.Obj().Name() {
+			case "IP", "IPNet", "IPMask", "HardwareAddr":
+				return "pure"
+			}
+			return "nondet"
+		}
+		switch fn.Name() {
+		case "ParseIP", "ParseCIDR", "ParseMAC", "JoinHostPort", "SplitHostPort", "IPv4", "CIDRMask", "IPv4Mask":
+			return "pure"
+		}
+		return "nondet"
+	case p == "net/netip":
+		return "pure"
+	case p == "sync/atomic", p == "math/rand", p == "math/rand/v2", p == "crypto/rand", p == "os", p == "os/exec", p == "os/signal", p == "os/user", p == "runtime", p == "net/http", p == "syscall", p == "io/ioutil", p == "context":
 		return "nondet"
 	case p == "log", strings.HasSuffix(p, "/glog"), strings.HasPrefix(p, "github.com/prometheus/"), p == "github.com/hashicorp/go-metrics":
 		return "sink"
@@ -590,11 +608,25 @@ func c01(c *Ctx) {
 }
 
 // firstMatchLoop: the loop acts on at most the first element satisfying a predicate (continue … ; act; break/return).
+// lastOf: the statement a statement list ends in, looking into a trailing block (an expanded `return x` of a helper is
+// `{ v = x; break L }`)
+func lastOf(list []ast.Stmt) ast.Stmt {
+	for len(list) > 0 {
+		st := list[len(list)-1]
+		if b, ok := st.(*ast.BlockStmt); ok {
+			list = b.List
+			continue
+		}
+		return st
+	}
+	return nil
+}
+
 func (c *Ctx) firstMatchLoop(fi *load.FuncInfo, rs *ast.RangeStmt) bool {
 	// the same loop with the test the other way round: the whole body is `if <match> { …; break|return }`
 	if len(rs.Body.List) == 1 {
 		if ifs, ok := rs.Body.List[0].(*ast.IfStmt); ok && ifs.Else == nil && len(ifs.Body.List) >= 1 {
-			switch x := ifs.Body.List[len(ifs.Body.List)-1].(type) {
+			switch x := lastOf(ifs.Body.List).(type) {
 			case *ast.BranchStmt:
 				return x.Tok == token.BREAK
 			case *ast.ReturnStmt:
@@ -609,7 +641,7 @@ func (c *Ctx) firstMatchLoop(fi *load.FuncInfo, rs *ast.RangeStmt) bool {
 	if ifs, ok := rs.Body.List[0].(*ast.IfStmt); ok {
 		if len(ifs.Body.List) == 1 {
 			if b, ok := ifs.Body.List[0].(*ast.BranchStmt); ok && b.Tok == token.CONTINUE {
-				switch x := rs.Body.List[len(rs.Body.List)-1].(type) {
+				switch x := lastOf(rs.Body.List).(type) {
 				case *ast.BranchStmt:
 					return x.Tok == token.BREAK
 				case *ast.ReturnStmt:
@@ -661,6 +693,7 @@ func (c *Ctx) orderInsensitive(fi *load.FuncInfo, g *cfgx.Graph, rs *ast.RangeSt
 		return true, "unique match by key: the body is skipped unless the range key equals a loop-invariant value", ""
 	}
 	inlining := map[*ast.FuncLit]bool{}
+	counters := map[types.Object]bool{}
 	var walk func(n ast.Node)
 	walk = func(n ast.Node) {
 		ast.Inspect(n, func(m ast.Node) bool {
@@ -767,6 +800,17 @@ func (c *Ctx) orderInsensitive(fi *load.FuncInfo, g *cfgx.Graph, rs *ast.RangeSt
 				}
 			case *ast.IncDecStmt:
 				if b := astx.BaseIdent(x.X); b != nil && !localInBody(astx.Obj(info, b)) {
+					// counting: an integer local of the function that the loop only increments or decrements (checked
+					// after the walk: no other mention in the body) — integer addition does not care about the order
+					if id, isID := ast.Unparen(x.X).(*ast.Ident); isID {
+						if v, isVar := astx.Obj(info, id).(*types.Var); isVar && !v.IsField() && v.Parent() != nil && v.Parent() != v.Pkg().Scope() {
+							if bt, isB := v.Type().Underlying().(*types.Basic); isB && bt.Info()&types.IsInteger != 0 {
+								counters[v] = true
+								idioms["counter"] = true
+								return true
+							}
+						}
+					}
 					bad = "increment of " + astx.Str(x.X)
 				}
 			case *ast.CallExpr:
@@ -801,6 +845,20 @@ func (c *Ctx) orderInsensitive(fi *load.FuncInfo, g *cfgx.Graph, rs *ast.RangeSt
 		})
 	}
 	walk(rs.Body)
+	if bad == "" && len(counters) > 0 {
+		// a counter is only counted in the loop: reading it there exports how many elements came before this one
+		ast.Inspect(rs.Body, func(m ast.Node) bool {
+			if inc, ok := m.(*ast.IncDecStmt); ok {
+				if id, isID := ast.Unparen(inc.X).(*ast.Ident); isID && counters[astx.Obj(info, id)] {
+					return false
+				}
+			}
+			if id, ok := m.(*ast.Ident); ok && counters[astx.Obj(info, id)] && bad == "" {
+				bad = "the counter " + id.Name + " is read inside the loop: its value there depends on the visiting order"
+			}
+			return true
+		})
+	}
 	if bad != "" {
 		return false, "", bad
 	}
